@@ -6,6 +6,9 @@
 (* Mode "gen": expected os.date / os.time results for the instants of       *)
 (*             GenGrid and ExtraFile in the zone (Offset, ZoneName); one GEN    *)
 (*             line per instant, consumed by lib/checks/c16.py.             *)
+(* Mode "fmt": expected os.date results for a matrix of formats (every      *)
+(*             directive alone, next to literal text, next to %%, and every *)
+(*             ordered pair of directives) at the instants of ExtraFile.    *)
 (***************************************************************************)
 EXTENDS Calendar, FiniteSets, Json
 
@@ -34,8 +37,35 @@ DayMarks == {-1, 0, 1, 59, 60, 3599, 3600, 43199, 43200, 46799, 46800, 86399}
 GenPiece(y) == IF y = 0 THEN {d * 86400 + 3661 * (d % 24) : d \in 0..400} \cup Extra
                ELSE UNION {{Midnight(y, m, 1) - Offset + d : d \in DayMarks} : m \in 1..12}
 
+(* Mode "fmt": the format matrix.  ExtraFile holds one record {t, bind} per instant; bind maps every   *)
+(* directive to what the real code rendered for it alone.  A bound text is used only where the        *)
+(* property leaves the text open: %c (the locale's layout) and %j %U %W handed back unchanged (not     *)
+(* offered); every other directive is rendered by Dir.  A format denotes the concatenation of its      *)
+(* pieces: literal text copied, each directive rendered independently of its neighbours.               *)
+Bound == IF Mode = "fmt" THEN ndJsonDeserialize(ExtraFile) ELSE <<>>
+FmtDirs == <<"a", "A", "b", "B", "c", "d", "H", "I", "j", "m", "M", "p", "S", "U", "w", "W", "x", "X", "y", "Y", "Z", "%",
+             "F", "P", "z">>
+OpenDir(X, b) == X = "c" \/ (X \in {"j", "U", "W"} /\ b[X] = "%" \o X)
+Piece(item, f, b) == IF item[1] = "l" THEN item[2]
+                     ELSE IF OpenDir(item[2], b) THEN b[item[2]] ELSE Dir(item[2], f, Offset, ZoneName)
+D(X) == <<"d", X>>
+L(x) == <<"l", x>>
+RECURSIVE FlatSeq(_)
+FlatSeq(ss) == IF Len(ss) = 0 THEN <<>> ELSE Head(ss) \o FlatSeq(Tail(ss))
+FormatsOf(X) ==
+    << <<D(X)>>, <<D(X), L("z")>>, <<D(X), L("-")>>, <<D(X), L(" "), D(X)>>,
+       <<L("a"), D(X), L("b"), D(X), L("c")>>, <<D(X), D("%")>>, <<D("%"), D(X)>>, <<D(X), L(" day "), D(X), L("d")>> >>
+    \o FlatSeq([k \in 1..Len(FmtDirs) |->
+          << <<D(X), D(FmtDirs[k])>>, <<D(X), L("d"), D(FmtDirs[k])>>,
+             <<D(X), L("H"), D(FmtDirs[k])>>, <<D(X), L("Y"), D(FmtDirs[k])>> >>])
+RECURSIVE FmtText(_)
+FmtText(items) == IF Len(items) = 0 THEN ""
+                  ELSE (IF Head(items)[1] = "d" THEN "%" \o Head(items)[2] ELSE Head(items)[2]) \o FmtText(Tail(items))
+
 Init == st = <<"root">>
-Next == \/ /\ st[1] = "root"
+Next == \/ /\ st[1] = "root" /\ Mode = "fmt"
+           /\ \E i \in 1..Len(Bound), k \in 1..Len(FmtDirs) : st' = <<"fmt", i, k>>
+        \/ /\ st[1] = "root" /\ Mode # "fmt"
            /\ \E y \in {0} \cup Years : st' = <<"chunk", y>>
         \/ /\ st[1] = "chunk"
            /\ \E x \in (IF Mode = "mc" THEN MCPiece(st[2]) ELSE GenPiece(st[2])) : st' = <<"t", x>>
@@ -109,4 +139,14 @@ GenPrint ==
              comps |-> [i \in 1..Len(Comps) |-> [items |-> Comps[i], out |-> Strftime(Comps[i], lf, Offset, ZoneName)]],
              back |-> SecondsOf(lf, Offset),
              noon |-> SecondsOf([lf EXCEPT !.hour = 12, !.min = 0, !.sec = 0], Offset)]))
+
+FmtPrint ==
+    (Mode = "fmt" /\ st[1] = "fmt") =>
+        LET b == Bound[st[2]]
+            f == Fields(b.t, Offset)
+            F == FormatsOf(FmtDirs[st[3]])
+        IN PrintT("GEN " \o ToJson(
+            [t |-> b.t, x |-> FmtDirs[st[3]],
+             f |-> [j \in 1..Len(F) |-> [text |-> FmtText(F[j]), items |-> F[j],
+                                         segs |-> [i \in 1..Len(F[j]) |-> Piece(F[j][i], f, b.bind)]]]]))
 =============================================================================
